@@ -182,6 +182,11 @@ type ltr struct {
 	named   bool
 	fields  []*lvar // assigned fields of pointer parameters, in order of first assignment
 	nvars   int
+	// functions outside the whitelist that a translated function calls: translated on demand and
+	// inlined at the call site (see inlineTerm)
+	inlineSigs  map[string]*lsig
+	inlineTerms map[string]string
+	inlining    []string // stack of functions being inlined (recursion check)
 }
 
 type env struct {
@@ -406,7 +411,7 @@ func (t *ltr) conv(pos token.Pos, v lval, to *gtype, explicit bool) lval {
 	return lval{}
 }
 
-// arith: a + b, a - b, a * b at Go type g (operands already converted to g)
+// arith: a + b, a - b, a * b, a & b, a | b, a ^ b at Go type g (operands already converted to g)
 func (t *ltr) arith(pos token.Pos, op token.Token, a, b string, g *gtype) string {
 	switch g.kind {
 	case "int": // Go int is 64 bits wide; the translation (like the model) uses unbounded Int
@@ -427,10 +432,53 @@ func (t *ltr) arith(pos token.Pos, op token.Token, a, b string, g *gtype) string
 			return "((" + a + " + " + m + " - " + b + " % " + m + ") % " + m + ")"
 		case token.MUL:
 			return "((" + a + " * " + b + ") % " + m + ")"
+		// both operands are below 2^N, and so is the result: no reduction needed
+		case token.AND:
+			return "(" + a + " &&& " + b + ")"
+		case token.OR:
+			return "(" + a + " ||| " + b + ")"
+		case token.XOR:
+			return "(" + a + " ^^^ " + b + ")"
 		}
 	}
 	t.die(pos, "unsupported operation %s on %s", op, g)
 	return ""
+}
+
+// shift: a << k, a >> k at the unsigned type g of a; k is a non-negative constant or an unsigned value
+func (t *ltr) shift(pos token.Pos, op token.Token, a lval, k lval) lval {
+	if a.t.kind != "uint" {
+		t.die(pos, "shift of %s", a.t)
+	}
+	var cnt string
+	switch k.t.kind {
+	case "const":
+		if k.t.val < 0 {
+			t.die(pos, "negative shift count")
+		}
+		cnt = fmt.Sprintf("%d", k.t.val)
+	case "uint":
+		cnt = k.lean
+	default:
+		t.die(pos, "shift count of type %s", k.t)
+	}
+	if op == token.SHL {
+		return lval{lean: "((" + a.lean + " <<< " + cnt + ") % " + pow2(a.t.bits) + ")", t: a.t}
+	}
+	return lval{lean: "(" + a.lean + " >>> " + cnt + ")", t: a.t}
+}
+
+// divmod: a / c, a % c at the unsigned type of a, for a non-zero constant c (Go panics on a zero
+// divisor, Lean returns 0 resp. a: a variable divisor is not translated)
+func (t *ltr) divmod(pos token.Pos, op token.Token, a lval, c lval) lval {
+	if a.t.kind != "uint" || c.t.kind != "const" || c.t.val <= 0 || !fits(c.t.val, a.t) {
+		t.die(pos, "%s is only supported on an unsigned value and a positive constant", op)
+	}
+	o := "/"
+	if op == token.REM {
+		o = "%"
+	}
+	return lval{lean: fmt.Sprintf("(%s %s %d)", a.lean, o, c.t.val), t: a.t}
 }
 
 func constArith(t *ltr, pos token.Pos, op token.Token, a, b int64) int64 {
@@ -441,6 +489,28 @@ func constArith(t *ltr, pos token.Pos, op token.Token, a, b int64) int64 {
 		return a - b
 	case token.MUL:
 		return a * b
+	case token.AND:
+		return a & b
+	case token.OR:
+		return a | b
+	case token.XOR:
+		return a ^ b
+	case token.SHL:
+		if b >= 0 && b < 62 {
+			return a << uint(b)
+		}
+	case token.SHR:
+		if b >= 0 {
+			return a >> uint(b)
+		}
+	case token.QUO:
+		if b != 0 {
+			return a / b
+		}
+	case token.REM:
+		if b != 0 {
+			return a % b
+		}
 	}
 	t.die(pos, "unsupported constant operation %s", op)
 	return 0
@@ -470,6 +540,9 @@ func (t *ltr) ex(e ast.Expr, en *env) lval {
 		}
 		if e.Name == "nil" {
 			return lval{t: &gtype{kind: "nil"}}
+		}
+		if e.Name == "true" || e.Name == "false" {
+			return lval{lean: e.Name, t: tBool}
 		}
 		if c, ok := t.p.consts[e.Name]; ok {
 			v, ok := t.p.evalConst(c, 0)
@@ -502,9 +575,14 @@ func (t *ltr) ex(e ast.Expr, en *env) lval {
 		return lval{lean: x.lean, t: x.t.elem}
 	case *ast.CallExpr:
 		return t.call(e, en)
+	case *ast.UnaryExpr:
+		if e.Op == token.NOT {
+			return lval{lean: "(decide " + t.cond(e, en) + ")", t: tBool}
+		}
+		t.die(e.Pos(), "unsupported operator %s in a value expression", e.Op)
 	case *ast.BinaryExpr:
 		switch e.Op {
-		case token.ADD, token.SUB, token.MUL:
+		case token.ADD, token.SUB, token.MUL, token.AND, token.OR, token.XOR:
 			a, b := t.ex(e.X, en), t.ex(e.Y, en)
 			if a.t.kind == "const" && b.t.kind == "const" {
 				return lval{t: &gtype{kind: "const", val: constArith(t, e.Pos(), e.Op, a.t.val, b.t.val)}}
@@ -518,6 +596,17 @@ func (t *ltr) ex(e ast.Expr, en *env) lval {
 			}
 			a, b = t.conv(e.X.Pos(), a, g, false), t.conv(e.Y.Pos(), b, g, false)
 			return lval{lean: t.arith(e.Pos(), e.Op, a.lean, b.lean, g), t: g}
+		case token.SHL, token.SHR, token.QUO, token.REM:
+			a, b := t.ex(e.X, en), t.ex(e.Y, en)
+			if a.t.kind == "const" && b.t.kind == "const" {
+				return lval{t: &gtype{kind: "const", val: constArith(t, e.Pos(), e.Op, a.t.val, b.t.val)}}
+			}
+			if e.Op == token.SHL || e.Op == token.SHR {
+				return t.shift(e.Pos(), e.Op, a, b)
+			}
+			return t.divmod(e.Pos(), e.Op, a, b)
+		case token.LAND, token.LOR, token.EQL, token.NEQ, token.LSS, token.GTR, token.LEQ, token.GEQ:
+			return lval{lean: "(decide " + t.cond(e, en) + ")", t: tBool}
 		}
 		t.die(e.Pos(), "unsupported operator %s in a value expression", e.Op)
 	}
@@ -553,6 +642,21 @@ func (t *ltr) fieldRead(e *ast.SelectorExpr, en *env) lval {
 }
 
 func (t *ltr) call(e *ast.CallExpr, en *env) lval {
+	if se, isSel := e.Fun.(*ast.SelectorExpr); isSel {
+		// x.m(args): a method of a struct of the package
+		x := t.ex(se.X, en)
+		g := x.t
+		if g.kind == "ptr" {
+			if x.opt {
+				t.die(e.Pos(), "method call through %s, which may be nil", render(se.X))
+			}
+			g = g.elem
+		}
+		if g.kind != "struct" {
+			t.die(e.Pos(), "unsupported call %s", render(e))
+		}
+		return t.callFunc(e, g.name+"."+se.Sel.Name, &x, e.Args, en)
+	}
 	id, ok := e.Fun.(*ast.Ident)
 	if !ok {
 		t.die(e.Pos(), "unsupported call %s", render(e))
@@ -573,26 +677,52 @@ func (t *ltr) call(e *ast.CallExpr, en *env) lval {
 		}
 		return t.conv(e.Pos(), t.ex(e.Args[0], en), t.gtypeOf(id), true)
 	}
-	sig, ok := t.sigs[id.Name]
-	if !ok {
-		t.die(e.Pos(), "call of %s, which is not a translated function", id.Name)
+	return t.callFunc(e, id.Name, nil, e.Args, en)
+}
+
+// callFunc: a call of the package function (or method, with its receiver) `key`.  A whitelisted
+// function is called by name; any other function of the package is translated on demand and inlined.
+func (t *ltr) callFunc(e *ast.CallExpr, key string, recv *lval, args []ast.Expr, en *env) lval {
+	sig, ok := t.sigs[key]
+	head := ""
+	if ok {
+		t.calls[sig.goName] = true
+		head = sig.lean
+	} else {
+		if _, isFunc := t.p.funcs[key]; !isFunc {
+			t.die(e.Pos(), "call of %s, which is not a function of the package", key)
+		}
+		sig = t.inlineSig(e.Pos(), key)
+		head = t.inlineTerm(e.Pos(), sig)
 	}
 	if len(sig.fieldsT) > 0 {
-		t.die(e.Pos(), "call of %s, which assigns fields of its receiver", id.Name)
+		t.die(e.Pos(), "call of %s, which assigns fields of its receiver", key)
 	}
-	if len(e.Args) != len(sig.params) {
-		t.die(e.Pos(), "arity of %s", id.Name)
+	var vals []lval
+	var poss []token.Pos
+	if recv != nil {
+		vals, poss = append(vals, *recv), append(poss, e.Pos())
 	}
-	t.calls[sig.goName] = true
-	s := "(" + sig.lean
-	for i, a := range e.Args {
-		v := t.ex(a, en)
+	for _, a := range args {
+		vals, poss = append(vals, t.ex(a, en)), append(poss, a.Pos())
+	}
+	if len(vals) != len(sig.params) {
+		t.die(e.Pos(), "arity of %s", key)
+	}
+	s := "(" + head
+	for i, v := range vals {
 		pr := sig.params[i]
 		if v.t.kind == "const" {
-			v = t.conv(a.Pos(), v, pr.t, false)
+			v = t.conv(poss[i], v, pr.t, false)
+		}
+		if recv != nil && i == 0 && v.t.kind == "struct" && pr.t.kind == "ptr" && pr.t.elem.same(v.t) {
+			v = lval{lean: v.lean, t: pr.t} // x.m() with an addressable x and a pointer receiver: (&x).m()
+		}
+		if recv != nil && i == 0 && v.t.kind == "ptr" && !v.opt && pr.t.kind == "struct" && v.t.elem.same(pr.t) {
+			v = lval{lean: v.lean, t: pr.t} // p.m() with a value receiver: (*p).m()
 		}
 		if !v.t.same(pr.t) {
-			t.die(a.Pos(), "argument %d of %s: %s passed as %s", i, id.Name, v.t, pr.t)
+			t.die(poss[i], "argument %d of %s: %s passed as %s", i, key, v.t, pr.t)
 		}
 		arg := v.lean
 		if pr.t.kind == "ptr" {
@@ -615,6 +745,42 @@ func (t *ltr) call(e *ast.CallExpr, en *env) lval {
 		return lval{lean: s, t: sig.results[0]}
 	}
 	return lval{lean: s, t: &gtype{kind: "tuple", tup: sig.results}}
+}
+
+// inlineSig: the signature of a function outside the whitelist (computed once)
+func (t *ltr) inlineSig(pos token.Pos, key string) *lsig {
+	if sig, ok := t.inlineSigs[key]; ok {
+		return sig
+	}
+	saved := t.name
+	sig := t.signature(key)
+	t.name = saved
+	t.inlineSigs[key] = sig
+	return sig
+}
+
+// inlineTerm: the function as a closed Lean lambda, `(fun (x : T) … => body)`.  The call site applies
+// it to the arguments (a beta-redex, which `simp only` reduces), so the generated file consists of the
+// whitelisted definitions only and the tie theorems never have to name a helper function that a
+// refactoring may introduce or remove.
+func (t *ltr) inlineTerm(pos token.Pos, sig *lsig) string {
+	if s, ok := t.inlineTerms[sig.goName]; ok {
+		return s
+	}
+	for _, n := range t.inlining {
+		if n == sig.goName {
+			t.die(pos, "recursive call cycle through %s", sig.goName)
+		}
+	}
+	// the translation state of the caller
+	name, results, named, fields, nvars := t.name, t.results, t.named, t.fields, t.nvars
+	t.inlining = append(t.inlining, sig.goName)
+	binders, _, body := t.funcTerm(sig)
+	t.inlining = t.inlining[:len(t.inlining)-1]
+	t.name, t.results, t.named, t.fields, t.nvars = name, results, named, fields, nvars
+	s := "(fun " + strings.Join(binders, " ") + " =>\n" + ind("-- "+sig.goName+" (inlined)\n"+body) + ")"
+	t.inlineTerms[sig.goName] = s
+	return s
 }
 
 // cond: a boolean expression in condition position, as a decidable Lean proposition
@@ -867,11 +1033,14 @@ func (t *ltr) block(list []ast.Stmt, en *env, end func(en *env) string) string {
 				t.die(s.Pos(), "unsupported assignment %s", render(s))
 			}
 			return t.assign(s.Pos(), s.Lhs[0], s.Rhs[0], s.Tok == token.DEFINE, en, rest, end)
-		case token.ADD_ASSIGN, token.SUB_ASSIGN, token.MUL_ASSIGN:
+		case token.ADD_ASSIGN, token.SUB_ASSIGN, token.MUL_ASSIGN, token.AND_ASSIGN, token.OR_ASSIGN, token.XOR_ASSIGN,
+			token.SHL_ASSIGN, token.SHR_ASSIGN, token.QUO_ASSIGN, token.REM_ASSIGN:
 			if len(s.Lhs) != 1 || len(s.Rhs) != 1 {
 				t.die(s.Pos(), "unsupported assignment %s", render(s))
 			}
-			op := map[token.Token]token.Token{token.ADD_ASSIGN: token.ADD, token.SUB_ASSIGN: token.SUB, token.MUL_ASSIGN: token.MUL}[s.Tok]
+			op := map[token.Token]token.Token{token.ADD_ASSIGN: token.ADD, token.SUB_ASSIGN: token.SUB, token.MUL_ASSIGN: token.MUL,
+				token.AND_ASSIGN: token.AND, token.OR_ASSIGN: token.OR, token.XOR_ASSIGN: token.XOR, token.SHL_ASSIGN: token.SHL,
+				token.SHR_ASSIGN: token.SHR, token.QUO_ASSIGN: token.QUO, token.REM_ASSIGN: token.REM}[s.Tok]
 			return t.assign(s.Pos(), s.Lhs[0], &ast.BinaryExpr{X: s.Lhs[0], OpPos: s.Pos(), Op: op, Y: &ast.ParenExpr{X: s.Rhs[0]}}, false, en, rest, end)
 		}
 		t.die(s.Pos(), "unsupported assignment %s", render(s))
@@ -903,7 +1072,7 @@ func (t *ltr) assign(pos token.Pos, lhs, rhs ast.Expr, define bool, en *env, res
 			if g.kind == "const" {
 				g = tInt // default type of an untyped integer constant
 			}
-			if g.kind != "int" && g.kind != "uint" {
+			if g.kind != "int" && g.kind != "uint" && g.kind != "bool" {
 				t.die(pos, "unsupported local variable type %s", g)
 			}
 			target = t.newVar(leanIdent(t, pos, l.Name), g, false)
@@ -923,7 +1092,7 @@ func (t *ltr) assign(pos token.Pos, lhs, rhs ast.Expr, define bool, en *env, res
 	default:
 		t.die(pos, "unsupported assignment target %s", render(lhs))
 	}
-	if target.t.kind != "int" && target.t.kind != "uint" {
+	if target.t.kind != "int" && target.t.kind != "uint" && target.t.kind != "bool" {
 		t.die(pos, "assignment to a variable of type %s", target.t)
 	}
 	v = t.conv(pos, v, target.t, false)
@@ -1085,8 +1254,12 @@ func (t *ltr) ifStmt(s *ast.IfStmt, en *env, rest []ast.Stmt, end func(*env) str
 
 // switchToIf rewrites `switch [tag] { case a, b: A; default: D }` as `if tag == a || tag == b { A } else { D }`
 func (t *ltr) switchToIf(s *ast.SwitchStmt) ast.Stmt {
+	return switchToIf(s, func(pos token.Pos, msg string) { t.die(pos, "%s", msg) })
+}
+
+func switchToIf(s *ast.SwitchStmt, fail func(pos token.Pos, msg string)) ast.Stmt {
 	if s.Init != nil {
-		t.die(s.Pos(), "switch with an init statement")
+		fail(s.Pos(), "switch with an init statement")
 	}
 	var dflt []ast.Stmt
 	hasDflt := false
@@ -1101,7 +1274,7 @@ func (t *ltr) switchToIf(s *ast.SwitchStmt) ast.Stmt {
 		for _, st := range cc.Body {
 			ast.Inspect(st, func(n ast.Node) bool {
 				if b, ok := n.(*ast.BranchStmt); ok {
-					t.die(b.Pos(), "%s inside switch", b.Tok)
+					fail(b.Pos(), b.Tok.String()+" inside switch")
 				}
 				return true
 			})
@@ -1135,7 +1308,7 @@ func (t *ltr) switchToIf(s *ast.SwitchStmt) ast.Stmt {
 		return &ast.EmptyStmt{Semicolon: s.Pos()}
 	}
 	if _, ok := cur.(*ast.BlockStmt); ok {
-		t.die(s.Pos(), "switch with only a default clause")
+		fail(s.Pos(), "switch with only a default clause")
 	}
 	return cur
 }
@@ -1241,7 +1414,7 @@ func (t *ltr) signature(goName string) *lsig {
 	}
 	for _, f := range fd.Type.Results.List {
 		g := t.gtypeOf(f.Type)
-		if g.kind != "int" && g.kind != "uint" {
+		if g.kind != "int" && g.kind != "uint" && g.kind != "bool" {
 			t.die(f.Pos(), "unsupported result type %s", g)
 		}
 		k := len(f.Names)
@@ -1292,19 +1465,20 @@ func (t *ltr) signature(goName string) *lsig {
 	return sig
 }
 
-func (t *ltr) function(sig *lsig) (text string, calls []string) {
+// funcTerm translates the body of a function: the Lean binders of its parameters, the Lean types of
+// its results and the body as a term over the binders
+func (t *ltr) funcTerm(sig *lsig) (binders, rtypes []string, term string) {
 	fd := sig.fd
 	t.name = sig.goName
-	t.calls = map[string]bool{}
 	t.results, t.fields, t.named, t.nvars = nil, nil, false, 0
 	en := &env{vars: map[string]*lvar{}, nonnil: map[string]*lvar{}, fields: map[string]*lvar{}}
-	var binders []string
 	for _, pr := range sig.params {
 		v := t.newVar(pr.lean, pr.t, pr.opt)
 		en.vars[pr.lean] = v
 		binders = append(binders, "("+pr.lean+" : "+t.leanType(fd.Pos(), pr.t, pr.opt)+")")
 	}
 	prologue := ""
+	zero := map[string]string{"int": "0", "uint": "0", "bool": "false"}
 	// state variables for assigned receiver fields
 	seen := map[string]bool{}
 	ast.Inspect(fd.Body, func(n ast.Node) bool {
@@ -1330,7 +1504,6 @@ func (t *ltr) function(sig *lsig) (text string, calls []string) {
 		return true
 	})
 	// results
-	var rtypes []string
 	for _, f := range t.fields {
 		rtypes = append(rtypes, t.leanType(fd.Pos(), f.t, false))
 	}
@@ -1346,19 +1519,25 @@ func (t *ltr) function(sig *lsig) (text string, calls []string) {
 			t.results = append(t.results, v)
 			en.vars[n.Name] = v
 			rtypes = append(rtypes, t.leanType(f.Pos(), g, false))
-			prologue += "let " + v.lean + " : " + t.leanType(f.Pos(), g, false) + " := 0\n"
+			prologue += "let " + v.lean + " : " + t.leanType(f.Pos(), g, false) + " := " + zero[g.kind] + "\n"
 		}
 	}
 	body := t.block(fd.Body.List, en, func(*env) string {
 		t.die(fd.Body.Rbrace, "falls off the end")
 		return ""
 	})
+	return binders, rtypes, prologue + body
+}
+
+func (t *ltr) function(sig *lsig) (text string, calls []string) {
+	t.calls = map[string]bool{}
+	binders, rtypes, term := t.funcTerm(sig)
 	for c := range t.calls {
 		calls = append(calls, c)
 	}
 	sort.Strings(calls)
-	src := filepath.Base(fset.Position(fd.Pos()).Filename)
-	text = fmt.Sprintf("/-- %s: `%s` -/\ndef %s %s : %s :=\n%s\n", src, sig.goName, sig.lean, strings.Join(binders, " "), strings.Join(rtypes, " × "), ind(prologue+body))
+	src := filepath.Base(fset.Position(sig.fd.Pos()).Filename)
+	text = fmt.Sprintf("/-- %s: `%s` -/\ndef %s %s : %s :=\n%s\n", src, sig.goName, sig.lean, strings.Join(binders, " "), strings.Join(rtypes, " × "), ind(term))
 	return
 }
 
@@ -1370,7 +1549,8 @@ statement by statement into Lean functions over the model's structures. Do not e
 Translation rules (anything outside this fragment makes the translator exit non-zero):
 * Go struct T            ↔ model structure T (first letter capitalised); field Foo ↔ foo (leading capitals lower-cased);
   field of type *T       ↔ Option T;   []T, []*T ↔ List T;   []byte ↔ Bytes;   len(x) ↔ (x.length : Int).
-* uintN                  ↔ Nat, every +, -, * at type uintN is followed by % 2^N;   uintN(e) of an int e ↔ (e % 2^N).toNat;
+* uintN                  ↔ Nat, every +, -, *, << at type uintN is followed by % 2^N;   uintN(e) of an int e ↔ (e % 2^N).toNat;
+  &, |, ^, >> on uintN   ↔ &&&, |||, ^^^, >>> (operands below 2^N give a result below 2^N);   / and % by a positive constant only;
   int                    ↔ Int (unbounded: Go's int is 64 bits wide, sums of slice lengths do not reach 2^63; the model
   makes the same assumption); int fields are read as (x.f : Int) whether the model stores them as Int or Nat.
 * untyped constant expressions are evaluated (from the constant declarations of the *current* source) and emitted as literals.
@@ -1382,7 +1562,10 @@ Translation rules (anything outside this fragment makes the translator exit non-
   assigned variables; if c { …; return e } ↔ if c then … else <rest>; switch ↔ chain of if on tag = case.
 * for _, item := range xs { body } ↔ let x := xs.foldl (fun x item => body; x) x for the assigned variable x.
 * a method assigning fields of its pointer receiver returns the final values of those fields in front of its results.
-* conditions are decidable propositions (=, ≠, <, ≤, ∧, ∨, ¬); a Bool b is b = true.
+* conditions are decidable propositions (=, ≠, <, ≤, ∧, ∨, ¬); a Bool b is b = true; a condition used as a value is decide c.
+* f(x) / x.m() for a listed function ↔ (f x) / (T_m x); for any other function or method of the package the callee is
+  translated by the same rules and INLINED as ((fun (p : T) … => body) x): the file defines the listed functions only,
+  whatever helper functions the Go code is split into.
 -/
 import Astits.Model.Mux
 set_option linter.unusedVariables false
@@ -1391,7 +1574,7 @@ namespace Astits.Generated.Lengths
 `
 
 func emitLengths(p *pkgInfo, out string) {
-	t := &ltr{p: p, sigs: map[string]*lsig{}}
+	t := &ltr{p: p, sigs: map[string]*lsig{}, inlineSigs: map[string]*lsig{}, inlineTerms: map[string]string{}}
 	for _, n := range lengthFuncs {
 		sig := t.signature(n)
 		if _, dup := t.sigs[sig.goName]; dup {
